@@ -994,6 +994,29 @@ class SimFuture(_cf.Future):
             return super().exception(0)
         return super().exception(timeout)
 
+    # CPython delivers the result of a pool task in the executor's manager THREAD of the process that owns the pool:
+    # Future.set_result() first records the state and wakes everybody who waits for the future (result(), wait(),
+    # as_completed()) and only THEN runs the done-callbacks - in the manager thread, concurrently with the main thread, which may
+    # already have gone on.  The simulated worker performs the state change itself (one step with its 'result' event); callbacks
+    # that are registered at that moment are handed to a simulated manager thread of the owning process and run there after a
+    # scheduling point.  (Thread pools run callbacks in the worker thread, which already is a thread of the owning process.)
+    def _finish(self, setter, value):
+        pool = getattr(self, '_sim_pool', None)
+        p = cur()
+        cbs = None
+        if p is not None and pool is not None and not pool.shares_state and self._done_callbacks:
+            with self._condition:
+                cbs, self._done_callbacks = self._done_callbacks, []
+        setter(self, value)
+        if cbs:
+            pool._defer_callbacks(self, cbs)
+
+    def set_result(self, result):
+        self._finish(_cf.Future.set_result, result)
+
+    def set_exception(self, exception):
+        self._finish(_cf.Future.set_exception, exception)
+
 
 class _Task:
     __slots__ = ('idx', 'fn', 'args', 'kwargs', 'future', 'worker', 'outcome', 'payload')
@@ -1046,6 +1069,8 @@ class SimPool:
         self.shutdown_flag = False
         self.broken = False
         self.owner = p
+        self.cbq = collections.deque()      # (future, callbacks) waiting for the owner's manager thread
+        self.manager = None
         k.pools.append(self)
         k.record('pool', f'W={self.W}')
 
@@ -1057,6 +1082,7 @@ class SimPool:
         if self.shutdown_flag:
             raise RuntimeError('cannot schedule new futures after shutdown')
         fut = SimFuture()
+        fut._sim_pool = self
         try:
             blob = pickle.dumps((fn, args, kwargs))
         except Exception as e:  # noqa: BLE001 - real pool fails the future with the pickling error
@@ -1116,7 +1142,7 @@ class SimPool:
         if cur() is not None:
             k.seam('shutdown', '')
             if wait and self.workers:
-                k.block(lambda: all(w.state == 'done' for w in self.workers), what='pool-join')
+                k.block(self._joined, what='pool-join')
 
     def __enter__(self):
         return self
@@ -1126,6 +1152,39 @@ class SimPool:
         return False
 
     # -- internals --------------------------------------------------------------------
+    def _joined(self):
+        return all(w.state == 'done' for w in self.workers) and (self.manager is None or self.manager.state == 'done')
+
+    def _defer_callbacks(self, fut, cbs):
+        k = self.k
+        self.cbq.append((fut, cbs))
+        k.probes['done_callbacks_handed_to_the_manager_thread'] += 1
+        if self.manager is None or self.manager.state == 'done':
+            owner = self.owner
+            pool = self
+
+            def manager_main():
+                p = cur()
+                while True:
+                    if not pool.cbq:
+                        if owner.image.dead or all(w.state == 'done' for w in pool.workers):
+                            break
+                        k.block(lambda: bool(pool.cbq) or owner.image.dead or all(w.state == 'done' for w in pool.workers),
+                                what='manager-idle')
+                        continue
+                    f, cs_ = pool.cbq.popleft()
+                    k.seam('callbacks', '')
+                    if owner.image.dead:
+                        break
+                    for cb in cs_:
+                        try:
+                            cb(f)
+                        except Exception:  # noqa: BLE001  (CPython logs 'exception calling callback' and goes on)
+                            k.probes['done_callback_raised'] += 1
+                k.proc_exit(p, 'thread-end')
+            self.manager = k.spawn(manager_main, f'mgr{len(k.pools)}', 'manager', owner.priv,
+                                   start_delay=k.delay(k.current, 'fork'), image=owner.image)
+
     def _child_priv(self, snap):
         v = snap.fork()
         if self.start_method == 'forkserver' and self.preloaded:
@@ -1491,7 +1550,7 @@ class SimMPPool(SimPool):
         if not self.closed and not self.broken:
             raise ValueError('Pool is still running')
         if cur() is not None and self.workers:
-            self.k.block(lambda: all(w.state == 'done' for w in self.workers), what='pool-join')
+            self.k.block(self._joined, what='pool-join')
 
     def terminate(self):
         k = self.k
@@ -1508,7 +1567,7 @@ class SimMPPool(SimPool):
                 w.term_pending = True
                 if w.state == 'blocked':
                     w.pred = lambda: True
-        k.block(lambda: all(w.state == 'done' for w in self.workers), what='pool-join')
+        k.block(self._joined, what='pool-join')
 
     def __exit__(self, *a):
         self.terminate()
